@@ -17,6 +17,18 @@ pub struct Ext {
 impl ExtraTokenFields for Ext {}
 impl ExtraDeviceAuthorizationFields for Ext {}
 
+/// a map-typed extension: receives every member the library's own struct does not know
+#[derive(Clone, Debug, Deserialize, Serialize, PartialEq)]
+pub struct ExtMap(pub std::collections::BTreeMap<String, serde_json::Value>);
+impl ExtraTokenFields for ExtMap {}
+impl ExtraDeviceAuthorizationFields for ExtMap {}
+impl RenderEf for ExtMap {
+    fn render(&self) -> String {
+        let keys: Vec<&[u8]> = self.0.keys().map(|k| k.as_bytes()).collect();
+        tok_list(&keys)
+    }
+}
+
 type XToken = StandardTokenResponse<Ext, BasicTokenType>;
 type XIntro = StandardTokenIntrospectionResponse<Ext, BasicTokenType>;
 type XDev = DeviceAuthorizationResponse<Ext>;
@@ -378,6 +390,22 @@ pub fn decode(ws: &[&str]) -> String {
             }
             main
         }};
+    }
+    if ws[1] == "M" {
+        macro_rules! dm {
+            ($t:ty, $r:expr) => {
+                match serde_json::from_slice::<$t>(&text) {
+                    Ok(v) => format!("ok {}", $r(&v)),
+                    Err(_) => "err".to_string(),
+                }
+            };
+        }
+        return match ws[0] {
+            "token" => dm!(StandardTokenResponse<ExtMap, BasicTokenType>, render_token),
+            "introspection" => dm!(StandardTokenIntrospectionResponse<ExtMap, BasicTokenType>, render_intro),
+            "device" => dm!(DeviceAuthorizationResponse<ExtMap>, render_dev),
+            _ => BAD.into(),
+        };
     }
     match (ws[0], ext) {
         ("token", false) => de!(BasicTokenResponse, render_token),
